@@ -252,20 +252,25 @@ def check(run) -> None:
     traces = pmap(gen_history, args, chunk=4)
     cfgs = {t["tid"]: t.pop("cfg") for t in traces}
     ctl: List[Dict[str, Any]] = []
+    ctl_kinds: List[str] = []
+    missing: List[str] = []      # a control with no place is a machinery failure only if every recorded history is accepted
     for j, kind in enumerate(NEG_CONTROLS):
         for t in traces:
             cc = corrupt(t, kind, -(j + 1))
             if cc is not None:
                 ctl.append(cc)
+                ctl_kinds.append(kind)
                 break
         else:
-            raise TLCError(f"no trace offers a place for the negative control {kind!r}")
+            missing.append(kind)
     B = 128 if q else 500
     verdicts: Dict[int, Tuple[str, int]] = {}
     for b in range(0, len(traces), B):
         batch = traces[b:b + B] + (ctl if b == 0 else [])
         verdicts.update(run.validate_traces("GelTrace", {}, batch, name=f"GelTrace_{b // B}", timeout_s=1500))
-    for cc, kind in zip(ctl, NEG_CONTROLS):
+    if missing and all(verdicts[t["tid"]][0] == "ok" for t in traces):
+        raise TLCError(f"no trace offers a place for the negative control(s) {missing!r}")
+    for cc, kind in zip(ctl, ctl_kinds):
         if verdicts[cc["tid"]][0] == "ok":
             raise TLCError(f"GelTrace accepted the negative control {kind!r}")
         run.ok(f"GelTrace.negative_control_rejected.{kind}")
